@@ -128,9 +128,12 @@ func HarnessC05OneShot() {
 	d2 := []interface{}{"a", "ab", 1.0}[verifChoose(3)]
 	solo1 := runFresh(s, d1, nil)
 	solo2 := runFresh(s, d2, nil)
+	// the callers share one option list that has spare capacity (as a slice built with append often has)
+	opts := make([]Option, 1, 4)
+	opts[0] = EnableObjectArrayTypeCheck(false)
 	var o1 verifOutcome
-	verifGo(func() { o1 = outcomeOfError(AgainstSchema(s, d1, nil)) })
-	o2 := outcomeOfError(AgainstSchema(s, d2, nil))
+	verifGo(func() { o1 = outcomeOfError(AgainstSchema(s, d1, nil, opts...)) })
+	o2 := outcomeOfError(AgainstSchema(s, d2, nil, opts...))
 	verifJoin()
 	verifAssert(verifIff(o1.valid, solo1.valid) && verifSameSet(o1.errs, solo1.errs), "goroutine-1-outcome-equals-solo")
 	verifAssert(verifIff(o2.valid, solo2.valid) && verifSameSet(o2.errs, solo2.errs), "goroutine-2-outcome-equals-solo")
